@@ -76,6 +76,130 @@ def check_d1(chk, m):
     chk.expect("D1", "local rf_pack_t objects in wavheader.c", n, 2)
 
 
+def ret_equals_consumed(p, fn, m, wh, items, res2field):
+    """The success value is computed from the decoded members (a size function of the header): it must equal the number of bytes the
+    walk consumed.  Both sides are expressions over the members the path compares and adds; they are evaluated on a grid of member
+    values around every constant those members are compared with, for every outcome of the chunk-id comparisons that is consistent
+    (two comparisons of the same bytes with the same constant agree; a member still zero from the initial memset is not equal to a
+    four-character id).  -> (True / False / None / 'infeasible', text)"""
+    ev_ = p.events
+    # what each header byte-array member holds at each moment: an item read from the input, zero, or unknown
+    content, zeroed, mclass, n_items = {}, False, {}, 0
+    for e in ev_:
+        if e.kind == "memset" and ptr_parts(e.ptr) == (("arg", wh), 0, ()) and e.val[0] == "c" and e.val[2] == 0:
+            content, zeroed = {}, True
+        elif e.kind == "call" and e.callee == "rf_unpack_bytes":
+            f = wav.field_name(e.args[1], fn, m, wh) or wav.local_name(e.args[1])
+            n_items += 1
+            if f:
+                content[f] = ("item", n_items)
+        elif e.kind == "memcpy" and e.val is not None:
+            d = wav.field_name(e.ptr, fn, m, wh) or wav.local_name(e.ptr)
+            s_ = wav.field_name(e.val, fn, m, wh) or wav.local_name(e.val)
+            if d:
+                content[d] = content.get(s_, ("zero",) if (zeroed and s_ and not s_.startswith("<local")) else ("unk", fmt(e.val)[:30]))
+        elif e.kind == "call" and e.callee in ("memcmp", "bcmp") and len(e.args) == 3:
+            g = [a for a in e.args[:2] if ptr_parts(a)[0][0] == "g"]
+            o = [a for a in e.args[:2] if ptr_parts(a)[0][0] != "g"]
+            if len(g) == 1 and len(o) == 1:
+                f = wav.field_name(o[0], fn, m, wh) or wav.local_name(o[0])
+                mclass[e.res] = (ptr_parts(g[0])[0][1], content.get(f, ("zero",) if zeroed and f and not f.startswith("<local") else ("unk", f)))
+
+    def norm(x):
+        if isinstance(x, tuple) and x in mclass:
+            return ("M",) + mclass[x]
+        if not isinstance(x, tuple):
+            return x
+        if x in res2field:
+            return ("F", res2field[x])
+        if x and x[0] == "ld":
+            f = wav.field_name(x[1], fn, m, wh)
+            if f:
+                return ("F", f)
+        if x and x[0] == "cast":
+            return norm(x[4])
+        return tuple(norm(y) if isinstance(y, tuple) else y for y in x)
+    ret = norm(p.ret)
+    lens = []
+    fixed = 0
+    for it in items:
+        if it.kind == "int":
+            fixed += it.width
+        else:
+            lens.append(norm(it.length_expr))
+    conds = [(norm(c), t) for c, t, i in p.conds if not (i is not None and getattr(i, "op", None) == "switch")]
+    atoms = lambda x: set(y for y in paths.subexprs(x) if isinstance(y, tuple) and y and y[0] in ("F", "M"))
+    rel = atoms(ret)
+    for l in lens:
+        rel |= atoms(l)
+    # conditions over the relevant members only decide feasibility; a condition that mixes them with other values is left out
+    use = []
+    for c, t in conds:
+        a = atoms(c)
+        others = [y for y in paths.subexprs(c) if isinstance(y, tuple) and y and y[0] in ("ld", "call", "arg", "sym")]
+        if a and not others:
+            use.append((c, t))
+            rel |= a
+    cand = {}
+    for a in rel:
+        if a[0] == "M":
+            cand[a] = [1] if a[2] == ("zero",) else [0, 1]
+        else:
+            core = a in atoms(ret) or any(a in atoms(l) for l in lens)
+            ks = {0, 1, 0xffff, 0x10000 + 18, 0xffffffff} if core else {0, 1}
+            for c, t in use + [(ret, None)] + [(l, None) for l in lens]:
+                if a not in atoms(c):
+                    continue
+                for y in paths.subexprs(c):
+                    if isinstance(y, tuple) and y and y[0] == "c":
+                        ks |= {max(0, y[2] - 1), y[2], y[2] + 1}
+            cand[a] = sorted(k for k in ks if 0 <= k <= 0xffffffff)
+    names = sorted(cand, key=str)
+    total = 1
+    for a in names:
+        total *= len(cand[a])
+    if total > 200000:
+        return None, "too many member values to evaluate"
+
+    def ev(x, val):
+        k = x[0]
+        if k == "c":
+            return x[2]
+        if k == "null":
+            return 0
+        if k in ("F", "M"):
+            return val[x]
+        if k == "b":
+            r = paths.fold_bin(x[1], x[2], ("c", x[2], ev(x[3], val) & paths.mask(x[2])), ("c", x[2], ev(x[4], val) & paths.mask(x[2])))
+            if r is None:
+                raise NoValue(x)
+            return r[2]
+        if k == "icmp":
+            bits = paths.expr_bits(x[2]) or paths.expr_bits(x[3]) or 32
+            return paths.fold_icmp(x[1], ("c", bits, ev(x[2], val) & paths.mask(bits)), ("c", bits, ev(x[3], val) & paths.mask(bits)))[2]
+        if k == "sel":
+            return ev(x[2] if ev(x[1], val) else x[3], val)
+        raise NoValue(x)
+    import itertools
+    feasible = 0
+    try:
+        for combo in itertools.product(*[cand[a] for a in names]):
+            val = dict(zip(names, combo))
+            if not all(bool(ev(c, val)) == bool(t) for c, t in use):
+                continue
+            feasible += 1
+            consumed = fixed + sum(ev(l, val) for l in lens)
+            rv = ev(ret, val) & 0xffffffff
+            if rv != consumed & 0xffffffff:
+                show = ", ".join("%s=%s" % (a[1] if a[0] == "F" else "%s-id-matches" % a[1], (v if a[0] == "F" else (v == 0))) for a, v in sorted(val.items(), key=str))
+                return False, "the value returned is computed from the decoded members and differs from the bytes consumed: with %s the walk consumes %d bytes and %d is returned" % (show, consumed, rv)
+    except NoValue as nv:
+        return None, "not evaluable: %s" % fmt(nv.args[0])[:40]
+    if not feasible:
+        return "infeasible", ""
+    return True, "a value computed from the decoded members that equals the bytes consumed for every evaluated combination of member values (%d)" % feasible
+
+
 def check_d2_d3(chk, m):
     fn = m.fn("rf_wavheader_decode")
     wh = wav.wh_index(fn)
@@ -109,11 +233,15 @@ def check_d2_d3(chk, m):
             q = [k for k, e in enumerate(p.events) if e.kind == "call" and e.res == rr]
             verdict = bool(q) and q[0] > last_item
             why = "rf_pack_consumed()" + ("" if verdict else " queried BEFORE the last item is consumed (stale count)")
-        elif rr == ("arg", sz_arg) or rr[0] == "c":
+        elif rr == ("arg", sz_arg):
             verdict = False
             why = "%s, which is not the number of bytes the header occupies" % fmt(p.ret)
         if verdict is None:
-            chk.unknown("D2.return-consumed", pid, "success value %s is not one of the modelled idioms" % fmt(p.ret)[:80], p.ret_inst.loc)
+            verdict, why = ret_equals_consumed(p, fn, m, wh, items, res2field)
+            if verdict == "infeasible":
+                continue
+        if verdict is None:
+            chk.unknown("D2.return-consumed", pid, "success value %s is not one of the modelled idioms%s" % (fmt(p.ret)[:80], why and " (%s)" % why or ""), p.ret_inst.loc)
         else:
             chk.ob("D2.return-consumed", pid, verdict,
                    "success returns the bytes the header occupies as counted by the cursor after the last item (> sz when "
